@@ -47,6 +47,8 @@ def shards(tier, seed):
             for order in (-1, 0, 1, 2):
                 out.append({"N": N, "sched": sch, "win": "kaiser200", "backend": "cuda", "seed": seed, "tier": tier,
                             "orders": [order]})
+    for sch in SCHEDS:
+        out.append({"N": 2000, "sched": sch, "win": "hann", "backend": "numba", "seed": seed, "tier": tier, "forceband": True})
     # backend="auto" in a process where CUDA is available (simulator): bins with more than 1000 segments go to the CUDA
     # kernels, the others to Numba, within one analysis
     for mode in ("auto", "cross"):
@@ -80,6 +82,8 @@ def run_shard(shard):
         if p.returncode != 0:
             raise RuntimeError(f"cuda-sim worker failed rc={p.returncode}\n{p.stderr[-3000:]}")
         return json.loads(p.stdout.splitlines()[-1])
+    if shard.get("forceband"):
+        return _forceband(shard)
     if "case" in shard:
         return _one(shard["case"], full=not shard["case"].get("light"))
     ana.quiet()
@@ -101,7 +105,8 @@ def run_shard(shard):
         case = {"N": N, "sched": sch, "win": win, "backend": backend, "order": order, "olap": olap, "Jdes": J,
                 "Kdes": K, "bmin": bmin, "Lmin": Lmin, "mode": mode, "rx": rx, "ry": ry, "seed": seed}
         # single-bin requests for every bin and all band pairs on every 8th lattice point; single-bin requests for the first and last bin on every other 8th
-        r = _one(case, full=(idx % 8 == 0) and not cuda, light_single=cuda or (idx % 8 == 4))
+        slot = (idx + idx // 8 + idx // 64) % 8   # diagonal through the lattice: every mode/record/Lmin/bmin combination gets its turn
+        r = _one(case, full=(slot == 0) and not cuda, light_single=cuda or (slot == 4))
         idx += 1
         tot["evals"] += r["evals"]
         tot["nontrivial"] += r["nontrivial"]
@@ -116,7 +121,48 @@ def run_shard(shard):
     return tot
 
 
+def _forceband(shard):
+    """force_target_nf together with a band: the banded analysis is the in-band part of the same forced analysis."""
+    ana.quiet()
+    N, fs = shard["N"], 2.0
+    x = records.get("id1", N, shard["seed"])
+    out = {"evals": 0, "nontrivial": 0, "failures": [], "samples": [], "extra": {"analyses": 0, "bins": 0, "single_bin": 0, "bands": 0}}
+    for target, olap in ((150, 0.5), (220, 0.0)):
+        kw = dict(olap=olap, Jdes=target, Kdes=10, order=0, scheduler=shard["sched"], backend="numba", win="hann", force_target_nf=True)
+        try:
+            full = ana.make_analyzer(x.copy(), fs, **kw).compute()
+        except (RuntimeError, ValueError):
+            continue
+        pf, rf = ana.plan_fields(full), ana.raw_fields(full)
+        f = pf["f"]
+        for lo, hi in ((0.05, 0.4), (0.0, 0.11), (float(f[3]), float(f[len(f) // 2])), (0.3, 1.0)):
+            mask = (f >= lo) & (f <= hi)
+            out["evals"] += 1
+            out["extra"]["bands"] += 1
+            out["nontrivial"] += int(mask.any())
+            case = dict(shard)
+            try:
+                b = ana.make_analyzer(x.copy(), fs, band=(lo, hi), **kw).compute()
+            except ValueError:
+                if not mask.any():
+                    continue
+                out["failures"].append(fw.fail(f"forceband/raises/{shard['sched']}", f"force_target_nf={target} with band=({lo},{hi}) raised although {int(mask.sum())} bins are in the band", case))
+                continue
+            except RuntimeError as e:
+                out["failures"].append(fw.fail(f"forceband/raises/{shard['sched']}", f"force_target_nf={target} with band=({lo},{hi}) raised {e} although the unrestricted forced analysis succeeds", case))
+                continue
+            bp, br = ana.plan_fields(b), ana.raw_fields(b)
+            prob = [k for k in ana.PLANF if not np.array_equal(bp[k], pf[k][mask])]
+            prob += [k for k in ana.RAW if br[k].shape != rf[k][mask].shape or not np.allclose(br[k], rf[k][mask], rtol=1e-12, atol=0)]
+            if prob:
+                out["failures"].append(fw.fail(f"forceband/{shard['sched']}/{'+'.join(prob[:4])}", f"force_target_nf={target}, band=({lo},{hi}): banded analysis has {len(bp['f'])} bins, the unrestricted one has {int(mask.sum())} in that band; fields {prob} differ", case))
+    out["samples"].append({"forceband": shard["sched"], "N": N})
+    return out
+
+
 def replay(case):
+    if case.get("forceband"):
+        return _forceband(case)["failures"]
     if case.get("part") == "pairs":
         return run_shard(case)["failures"]
     return run_shard({"backend": case["backend"], "case": case})["failures"]
